@@ -230,8 +230,24 @@ class Gen:
 
 
 def dup_must_fail(ctx):
-    for label, tail in (('DUP', [I('DUP')]), ('DUP 2', [PUSH(T.NAT, 1), I('DUP', N(2))]), ('DUP in pair', [PUSH(T.NAT, 1), I('PAIR'), I('DUP')]),
-                        ('DUP in option', [I('SOME'), I('DUP')]), ('DUP in list', [I('NIL', TY(T.ticket(T.STRING))), I('SWAP'), I('CONS'), I('DUP')])):
+    tk = T.ticket(T.STRING)
+    mint_in_body = [PUSH(T.NAT, 5), PUSH(T.STRING, 'tkt'), I('TICKET'), I('IF_NONE', FAIL('zero'), [])]
+    cases = [('DUP', [I('DUP')]), ('DUP 2', [PUSH(T.NAT, 1), I('DUP', N(2))]), ('DUP in pair', [PUSH(T.NAT, 1), I('PAIR'), I('DUP')]),
+             ('DUP in option', [I('SOME'), I('DUP')]), ('DUP in list', [I('NIL', TY(tk)), I('SWAP'), I('CONS'), I('DUP')]),
+             ('DUP in or', [I('LEFT', TY(T.NAT)), I('DUP')]),
+             ('DUP in map', [I('SOME'), I('EMPTY_MAP', TY(T.NAT), TY(tk)), I('SWAP'), PUSH(T.NAT, 1), I('UPDATE'), I('DUP')]),
+             ('DUP in big_map', [I('SOME'), I('EMPTY_BIG_MAP', TY(T.NAT), TY(tk)), I('SWAP'), PUSH(T.NAT, 1), I('UPDATE'), I('DUP')]),
+             ('DUP in pair in list', [PUSH(T.NAT, 1), I('PAIR'), I('NIL', TY(T.pair(T.NAT, tk))), I('SWAP'), I('CONS'), I('DUP')]),
+             # collections whose elements BECAME tickets through MAP
+             ('DUP of a map made of tickets by MAP', [I('DROP'), PUSH(T.map_(T.NAT, T.NAT), [(1, 1), (2, 2)]), I('MAP', [I('DROP')] + mint_in_body), I('DUP')]),
+             ('DUP of a list made of tickets by MAP', [I('DROP'), PUSH(T.list_(T.NAT), [1, 2]), I('MAP', [I('DROP')] + mint_in_body), I('DUP')]),
+             ('DUP 2 of a map made of tickets by MAP', [I('DROP'), PUSH(T.map_(T.NAT, T.NAT), [(1, 1)]), I('MAP', [I('DROP')] + mint_in_body), PUSH(T.NAT, 0), I('DUP', N(2))])]
+    # DUP n inside DIP k: the slot that is copied is counted from the top of the unprotected part
+    for k in (1, 2):
+        for n in (1, 2, 3):
+            pad_above = [PUSH(T.NAT, 100 + j) for j in range(k + n - 1)]
+            cases.append(('DUP %d inside DIP %d' % (n, k), pad_above + [I('DIP', N(k), [I('DUP', N(n))])]))
+    for label, tail in cases:
         code = [PUSH(T.NAT, 5), PUSH(T.STRING, 'gold'), I('TICKET'), I('IF_NONE', FAIL('zero'), [])] + tail
         it = D.new_interpreter()
         with H.monitoring(keep_objects=True) as mon:
